@@ -403,7 +403,13 @@ def observe_run(C, reads1, reads2, workdir):
     ev = dict(argv=" ".join(argv), exit=res.exit)
     if res.exit != 0 or res.exception is not None or res.json is None:
         ev["failed"] = dict(exit=res.exit, errors=res.errors[:3], exc=repr(res.exception), site=getattr(res, "crash_site", ""))
-        return ev, sampler, res
+        if not (ev["failed"]["site"] == "report.py:as_json" and isinstance(res.exception, AssertionError) and res.files):
+            return ev, sampler, res
+        # The program's own conservation assertion failed while the report was being built: the run itself is
+        # over and its output files are complete.  The crash is reported (by C04); the files are still judged
+        # read by read, without the report clauses, so that the check that owns the deviating stage sees it.
+        ev["report_crash"] = ev.pop("failed")
+        ev["exit"] = 0
     # The model's adapter lists are those of the command line (ranks, "the adapter given first", names by
     # position); the built objects only supply class and Locate oracle.  If the program built a different
     # number of adapters than were given (e.g. repeated adapters merged), every given adapter is mapped to the
@@ -557,6 +563,14 @@ def observe_run(C, reads1, reads2, workdir):
         reads.append(dict(in1=in1, in2=in2, table=table, obs=ob))
     # ---- report
     j = res.json
+    if j is None:          # (report_crash)
+        zero = {c: -1 for c in ("too_short", "too_long", "too_many_n", "too_many_expected_errors", "too_high_average_error_rate",
+                                "casava_filtered", "discard_trimmed", "discard_untrimmed")}
+        ev.update(cfg=cfg, reads=reads, stats1=[], stats2=[],
+                  report=dict(n_in=-1, n_out=-1, filtered=zero, filtered_sum=0, bp_in1=-1, bp_in2=0, bp_out1=-1, bp_out2=0,
+                              files_written=files_written[1], files_bp1=files_bp[1], files_bp2=files_bp[2] if paired else 0,
+                              with1=-1, with2=-1, pa1=-1, pa2=-1, qt1=-1, qt2=-1, rc=-1, text_ok=True, minimal_ok=True))
+        return ev, sampler, res
     rc = j["read_counts"]
     bp = j["basepair_counts"]
     filt = {k: (-1 if v is None else v) for k, v in rc["filtered"].items()}
